@@ -164,7 +164,42 @@ func runTransport(r *sim.Run) {
 			}
 			return c[t.Choose(len(c), "small_pos")]
 		}
-		switch t.Pick([]int{5, 3, 3, 4, 3, 2, 2, 4, 4, 3, 4}, "corruption") {
+		switch t.Pick([]int{5, 3, 3, 4, 3, 2, 2, 4, 4, 3, 4, 4}, "corruption") {
+		case 11:
+			kind = "compact-integer-truncated"
+			// a multi-octet compact integer (first octet 0x80..0xff announces 1..8 more octets) whose tail is cut off by
+			// the end of the frame - at the string length prefix of an Error / PeerInfo frame, or at any small octet
+			if t.Bool("truncate_in_string_frame") {
+				var sf []int
+				for i, n := range names {
+					if n == "Error" || n == "PeerInfo" {
+						sf = append(sf, i)
+					}
+				}
+				fi = sf[t.Choose(len(sf), "string_frame")]
+				data = append([]byte(nil), frames[fi]...)
+			}
+			p := smallPos()
+			switch names[fi] {
+			case "Error":
+				p = 5
+			case "PeerInfo":
+				p = 5 + 11 // fuzz version, features, two versions
+			}
+			if p >= len(data) {
+				p = len(data) - 1
+			}
+			first := []byte{0x80, 0xbf, 0xc0, 0xe0, 0xf0, 0xf8, 0xfc, 0xfe, 0xff}[t.Choose(9, "compact_first_octet")]
+			need := 0
+			for b := first; b&0x80 != 0; b <<= 1 {
+				need++
+			}
+			data[p] = first
+			keep := t.Choose(need, "octets_kept") // 0 .. need-1 of the announced octets survive
+			if p+1+keep < len(data) {
+				data = data[:p+1+keep]
+			}
+			binary.LittleEndian.PutUint32(data[:4], uint32(len(data)-4))
 		case 10:
 			kind = "discriminator-sweep"
 			// a union tag, option flag or boolean octet of the structure (its offset is known: the harness built the
